@@ -28,7 +28,7 @@ use std::{
 use serde_json::{Value, json};
 use sozu::command::upgrade::UpgradeData;
 use sozu_command_lib::{
-    buffer::fixed::Buffer,
+    buffer::growable::Buffer,
     config::Config,
     parser::parse_several_requests,
     proto::command::{
@@ -140,6 +140,14 @@ fn load_state_read_loop(file: &mut File) -> Result<Vec<WorkerRequest>, String> {
     let mut out = Vec::new();
     let mut buffer = Buffer::with_capacity(200000);
     loop {
+        // (mirrors the loop of load_state as repaired by the fix: commit "let load_state reload a
+        // saved request larger than its 200000-byte buffer")
+        if buffer.available_space() == 0 {
+            buffer.shift();
+            if buffer.available_space() == 0 {
+                buffer.grow(buffer.capacity() * 2);
+            }
+        }
         let previous = buffer.available_data();
         match file.read(buffer.space()) {
             Ok(n) => {
